@@ -191,7 +191,9 @@ def verify(contract, repo, domain, contracts, fi=None):
             conds = contract.raises(it, a)
             try:
                 r = it.call_funcinfo(fi, contract.call_args(formals) if hasattr(
-                    contract, "call_args") else list(formals.values()), {}, force_body=True)
+                    contract, "call_args") else list(formals.values()),
+                    contract.call_kwargs(formals) if hasattr(contract, "call_kwargs") else {},
+                    force_body=True)
             except PyRaise as e:
                 allowed = [c for x, c in conds.items() if repo.exc_issubclass(e.exc, x)]
                 if e.exc in contract.may_raise or any(
